@@ -3,7 +3,7 @@ src/timezone/mod.rs `TzAsciiStr::equal` and `LocalTimeType::equal` translated: o
 are equality of the designations resp. the model's `LocalTimeType.equal` — the meaning ("structural equality") the other
 translated functions give to `LocalTimeType::equal`.
 -/
-import TzVerif.Generated.Src
+import TzVerif.SrcBase
 import TzVerif.Model.TimeZone
 import TzVerif.Proofs.SrcEqLtt
 
